@@ -24,7 +24,7 @@ from .common import sample
 TIMEOUT_MS = {"quick": 60000, "thorough": 300000}
 
 CONTRACTS = ["string_cell_roundtrip", "int_cell_roundtrip", "bool_cell_roundtrip", "float_cell_roundtrip", "complex_cell_roundtrip", "terse_schema_is_valid",
-             "schema_validation", "invalid_schema_refused", "unequal_columns_refused", "unparsable_cell_refused"]
+             "schema_validation", "invalid_schema_refused", "unequal_columns_refused", "unparsable_cell_refused", "rows_through_reader_comma", "rows_through_reader_tab", "rows_through_reader_semicolon"]
 HEAVY = {"schema_validation", "invalid_schema_refused", "unparsable_cell_refused", "terse_schema_is_valid"}
 
 
@@ -68,9 +68,9 @@ def t_contract(sess, fn, per_condition_s):
     for line in out.splitlines():
         if "Confirmed over all paths" in line:
             verdict = "unsat"
-        m = re.search(r"error: (.*) when calling (\w+\(.*\))(?: \(which returns .*\))?$", line)
+        m = re.search(r"error: (.*?) when calling (\w+\(.*\))$", line)
         if m:
-            verdict, call = "sat", (m.group(1), m.group(2))
+            verdict, call = "sat", (m.group(1), re.sub(r"\s\(which (?:returns|raises) .*\)$", "", m.group(2)))
             break
         if "Not confirmed" in line or "Unable to meet precondition" in line:
             verdict = "unknown"
@@ -101,8 +101,9 @@ def replay_contract(case):
     ns = {k: getattr(c16, k) for k in dir(c16)}
     ns.update(nan=float("nan"), inf=float("inf"), math=math)
     detail = {}
+    code = compile(case["call"], "<crosshair counterexample>", "eval")  # a call that does not parse is a harness error, not a reproduction
     try:
-        res = eval(case["call"], ns)  # noqa: S307 - literal call printed by CrossHair
+        res = eval(code, ns)  # noqa: S307 - literal call printed by CrossHair
         detail["contract"] = f"returned {res!r}"
         bad = res is False
     except err.SCSVError as e:
